@@ -376,8 +376,13 @@ func c06r5(r *R) {
 		if len(p.Ret) != 2 || p.Ret[1] != "nil" {
 			continue
 		}
-		n++
 		u := p.Ret[0]
+		if u == "nil" && p.hasCond(func(c string) bool {
+			return strings.HasPrefix(c, "((pac.Proxy).URL(") && strings.HasSuffix(c, " == nil)")
+		}) {
+			continue // DIRECT: the chosen entry has no URL, there is no proxy to give credentials to
+		}
+		n++
 		kerb := p.holds("($0.kerberosAdapter != nil)") && p.holds("invoke forwarder.KerberosAdapter.GetConfig($0.kerberosAdapter).AuthUpstreamProxy")
 		user, set := p.Mem[u+".User"]
 		const m = "(*forwarder.CredentialsMatcher).MatchURL($0.creds, "
